@@ -2,7 +2,15 @@
 
 package analysis
 
-import "github.com/go-openapi/spec"
+import (
+	"encoding/json"
+	"fmt"
+	"os"
+	"path/filepath"
+	"sync"
+
+	"github.com/go-openapi/spec"
+)
 
 // VerifHook, when set, receives trace events from Flatten and Mixin.
 //
@@ -12,5 +20,34 @@ var VerifHook func(ev string, doc *spec.Swagger, args ...string)
 func verifEmit(ev string, doc *spec.Swagger, args ...string) {
 	if VerifHook != nil {
 		VerifHook(ev, doc, args...)
+	}
+}
+
+// When VERIF_TRACE_DIR is set (e.g. while running the package's own tests with -tags verif), every event is appended,
+// with the serialized document, to <dir>/trace-<pid>.ndjson.
+func init() {
+	dir := os.Getenv("VERIF_TRACE_DIR")
+	if dir == "" {
+		return
+	}
+	var mu sync.Mutex
+	f, err := os.OpenFile(filepath.Join(dir, fmt.Sprintf("trace-%d.ndjson", os.Getpid())), os.O_CREATE|os.O_APPEND|os.O_WRONLY, 0o644)
+	if err != nil {
+		return
+	}
+	seq := 0
+	VerifHook = func(ev string, doc *spec.Swagger, args ...string) {
+		mu.Lock()
+		defer mu.Unlock()
+		seq++
+		rec := map[string]interface{}{"seq": seq, "ev": ev, "args": args}
+		if ev != "reload" && doc != nil {
+			if b, e := json.Marshal(doc); e == nil {
+				rec["doc"] = json.RawMessage(b)
+			}
+		}
+		if b, e := json.Marshal(rec); e == nil {
+			_, _ = f.Write(append(b, '\n'))
+		}
 	}
 }
